@@ -143,6 +143,20 @@ def run(ctx):
             got_ok_nowrite.add(v)
         elif "parse" in calls and "transform" in calls:
             got_parse.add(v)
+    # first-match semantics: a guarded or duplicated arm can pre-empt the decoded one (seeded c17-b: a digit-only guard before the parse)
+    guarded = [a for a in m["arms"] if a.get("guard")]
+    seen_v = [v for v, arm, pat in hir.arms_by_variant(m)]
+    dup = sorted({v for v in seen_v if seen_v.count(v) > 1})
+    ctx.ob("K-MUTATOR", "set_atom_name: no guarded or duplicated arm (each constructor is decided by exactly one arm)", not guarded and not dup,
+           "guarded arms at lines %s; duplicated variants %s" % ([a.get("line") for a in guarded], dup))
+    for v, arm, pat in hir.arms_by_variant(m):
+        if v == "Interval":
+            t = hir.last_expr(arm["body"])
+            ps = hir.find_calls(arm["body"], "parse")
+            ok = t["k"] == "MethodCall" and t["method"] == "transform" and len(ps) == 1 and strip(t["recv"]) is ps[0] \
+                and (ps[0].get("def") or "").endswith("str>::parse") and field_path(ps[0]["recv"]) == ("new_name",) and "usize" in (ps[0].get("ty") or "")
+            ctx.ob("K-MUTATOR", "set_atom_name Interval: the whole arm is new_name.parse::<usize>().transform(store, error)", ok,
+                   "the accepted syntax must be exactly std's usize::from_str (optional '+', decimal digits, fits the word)")
     ctx.ob("K-MUTATOR", "set_atom_name renames exactly the String-storage atoms", got_named == named, "renames %s, String storage: %s" % (sorted(got_named), sorted(named)))
     ctx.ob("K-MUTATOR", "set_atom_name Placeholder: Ok without write", got_ok_nowrite == {"Placeholder"}, "%s" % sorted(got_ok_nowrite))
     ctx.ob("K-MUTATOR", "set_atom_name Interval: parse then write", got_parse == {"Interval"}, "%s" % sorted(got_parse))
